@@ -68,7 +68,13 @@ class FakeDatagramTransport(asyncio.DatagramTransport):
         self.sent.append((self.loop.time(), bytes(data), addr))
         if self.closed:
             return
-        if len(self.sent) == 1 and self.script:
+        # outcomes are scripted per TRANSMISSION (in global order), not per socket: an implementation that re-sends on
+        # one socket sees the same network as one that opens a socket per attempt
+        idx = self.loop.transmissions
+        self.loop.transmissions += 1
+        script = self.loop.scripts[idx] if idx < len(self.loop.scripts) else None
+        if script:
+            self.script = script
             self.loop._play(self, bytes(data))
 
     def _shutdown(self, exc=None):
@@ -120,6 +126,7 @@ class VLoop(asyncio.SelectorEventLoop):
         self.reply = reply
         self.unit = timeout_unit
         self.transports = []
+        self.transmissions = 0
         self.callback_errors = []
         self.set_exception_handler(self._on_error)
 
@@ -131,9 +138,7 @@ class VLoop(asyncio.SelectorEventLoop):
 
     async def create_datagram_endpoint(self, protocol_factory, local_addr=None, remote_addr=None, **kw):
         protocol = protocol_factory()
-        idx = len(self.transports)
-        script = self.scripts[idx] if idx < len(self.scripts) else None
-        tr = FakeDatagramTransport(self, protocol, remote_addr, local_addr, script)
+        tr = FakeDatagramTransport(self, protocol, remote_addr, local_addr, None)
         self.transports.append(tr)
         await asyncio.sleep(0)
         protocol.connection_made(tr)
@@ -144,7 +149,7 @@ class VLoop(asyncio.SelectorEventLoop):
         kind = s["kind"]
         addr = tr.remote_addr or ("192.0.2.1", 161)
         if kind in ("reply", "late", "empty"):
-            data = b"" if kind == "empty" else self.reply
+            data = b"" if (kind == "empty" or s.get("empty")) else self.reply
             self.call_later(s["d"], tr.net_datagram, data, addr)
         elif kind == "dup":
             self.call_later(s["d"], tr.net_datagram, self.reply, addr)
